@@ -12,6 +12,8 @@ import PercevalModel.Lemmas.C15PSR
 import PercevalModel.Lemmas.C15TextW
 import PercevalModel.Lemmas.C15Tree
 import PercevalModel.Lemmas.C15F32
+import PercevalModel.Lemmas.C15Det
+import PercevalModel.Lemmas.C15Noise
 
 namespace PM.C15
 
@@ -795,5 +797,127 @@ theorem f32_beyond_text_precision : f32 (32 + 1 / 524288) = some 32 ∧
   f32_example_tie_32
 
 end F32
+
+/-! ## EXTENSION 8: the constructor layer of `Detector` (`Model/C15Det.lean`)
+
+`roundtrip_detector` above carries the hypothesis `Det.WF` on the STATE of the object.  Below the code that
+produces that state is inside the model (`Detector.__init__` on every `int`-or-`None` argument pair, the
+factories, `Detector.type`, the 32-bit message fields), so the hypothesis is replaced by "the object was built
+by the constructor", and the one place where `max_detections or None` does hit a legitimate value is stated
+exactly. -/
+namespace DetC
+
+/-- EVERY detector the constructor builds (any `n_wires`, any `max_detections`, negative caps and a cap of 0
+included, any factory) and the writer accepts (both numbers fit the `int32` fields) is read back without an
+`AssertionError`, and the rebuilt object is the original except that a cap of 0 has become "no cap"
+(`_max = _wires`). -/
+theorem roundtrip_detector_any_arguments (nw md : Option Int) (s : DState) (h : ctor nw md = some s)
+    (f : Int × Int) (hf : enc s = some f) : dec f = some (expected s) :=
+  dec_enc_shape s (ctor_shape h) f hf
+
+/-- … so a constructed detector comes back IDENTICAL iff its cap is not 0: `max_detections or None` loses
+exactly `Detector(n, 0)` (a negative cap survives, `Detector(None, k)` never stored `k`). -/
+theorem roundtrip_detector_exact_iff (nw md : Option Int) (s : DState) (h : ctor nw md = some s)
+    (f : Int × Int) (hf : enc s = some f) : dec f = some s ↔ s.max ≠ some 0 := by
+  rw [roundtrip_detector_any_arguments nw md s h f hf, Option.some.injEq]
+  exact expected_eq_iff s (ctor_shape h)
+
+/-- the boundary is real: `Detector(5, 0)` is accepted, written, and read back as `Detector(5, 5)` -/
+theorem roundtrip_detector_zero_cap_witness :
+    ctor (some 5) (some 0) = some ⟨some 5, some 0⟩ ∧ enc ⟨some 5, some 0⟩ = some (5, 0) ∧
+      dec (5, 0) = some ⟨some 5, some 5⟩ := by decide
+
+/-- a negative cap (accepted by the constructor: there is no lower bound) survives -/
+example : ctor (some 3) (some (-1)) = some ⟨some 3, some (-1)⟩ ∧ enc ⟨some 3, some (-1)⟩ = some (3, -1) ∧
+    dec (3, -1) = some ⟨some 3, some (-1)⟩ := by decide
+
+/-- `Detector.type` (Threshold / PNR / PPNR) survives for EVERY constructed detector, the cap-0 one included -/
+theorem detector_type_survives (nw md : Option Int) (s : DState) (h : ctor nw md = some s)
+    (f : Int × Int) (hf : enc s = some f) : ∃ t, dec f = some t ∧ dtype t = dtype s :=
+  ⟨expected s, roundtrip_detector_any_arguments nw md s h f hf, dtype_expected s (ctor_shape h)⟩
+
+/-- the factories build the three types -/
+theorem factories : threshold.map dtype = some .threshold ∧ pnr.map dtype = some .pnr ∧
+    (ppnr 5 (some 2)).map dtype = some .ppnr ∧ (ppnr 1 none).map dtype = some .threshold := by decide
+
+/-- the hypothesis `Det.WF` of `roundtrip_detector` is EXACTLY "built by the constructor with a cap other
+than 0" (on natural numbers) … -/
+theorem wf_iff_constructed (name : String) (w m : Option Nat) :
+    (Det.det name w m).WF ↔ (∃ nw md, ctor nw md = some (ofNatState w m)) ∧ m ≠ some 0 :=
+  wf_iff name w m
+
+/-- … hence `roundtrip_detector` without `WF`: whatever the arguments, if the constructor accepted them and the
+stored cap is not 0 (and not negative, so that the natural-number message model applies), the object comes
+back identical through `serialize_detector` / `deserialize_detector` of the main model. -/
+theorem roundtrip_detector_constructed (name : String) (nw md : Option Int) (s : DState)
+    (h : ctor nw md = some s) (d : Det) (hd : toDet name s = some d) (h0 : s.max ≠ some 0) :
+    decDet (encDet d) = some d :=
+  roundtrip_detector d (wf_of_shape name s (ctor_shape h) d hd h0)
+
+example : ∃ s d, ctor (some 4) (some 2) = some s ∧ toDet "PPNR" s = some d ∧ s.max ≠ some 0 :=
+  ⟨⟨some 4, some 2⟩, .det "PPNR" (some 4) (some 2), by decide, by decide, by decide⟩
+
+/-- the writer's only failure on a constructed detector is the 32-bit field (`ValueError`): inside the range
+it always writes -/
+theorem writer_accepts_iff (nw md : Option Int) (s : DState) (h : ctor nw md = some s) :
+    (enc s).isSome ↔ (∀ v, s.wires = some v → int32 v = true) ∧ (∀ v, s.max = some v → int32 v = true) := by
+  rcases ctor_shape h with rfl | ⟨w, k, _, _, rfl⟩
+  · simp [enc, field]
+  · by_cases hw : int32 w = true <;> by_cases hk : int32 k = true <;> simp [enc, field, hw, hk]
+
+end DetC
+
+/-! ## EXTENSION 8: the validation layer of `NoiseModel` (`Model/C15Noise.lean`)
+
+`roundtrip_noise` above is about the codec alone; the reader of the real code is the CONSTRUCTOR, which validates
+every value again and can raise.  With `ValidatedFloat` / `ValidatedBool`, `NoiseModel.__init__` and
+`NoiseModel.set_value` inside the model, the statement becomes one about every object the API can produce. -/
+namespace NoiseC
+
+/-- the ranges are an invariant of the object: whatever was passed to the constructor (if it accepted) and
+whatever `set_value` calls follow (raising ones included - they change nothing), every given float is in range -/
+theorem noise_values_always_valid (a n0 : Noise) (h : ctor a = .ok n0) (ops : List Op) :
+    valid (runOps n0 ops) = true :=
+  runOps_valid ops n0 (ctor_valid h).2
+
+/-- EVERY noise model reachable through the API - any accepted constructor call followed by any history of
+`set_value` calls - is written and read back without the reader's validation raising, with exactly the same
+given fields and values (fields set to a falsy or to their default value included). -/
+theorem roundtrip_noise_any_history (a n0 : Noise) (h : ctor a = .ok n0) (ops : List Op) :
+    decV (encNoise (runOps n0 ops)) = .ok (runOps n0 ops) := by
+  have hv := noise_values_always_valid a n0 h ops
+  simp [decV, roundtrip_noise, ctor, hv]
+
+/-- non-vacuity: a constructor call, a refused call (`g2 = 2`: ValueError), an unknown name (KeyError), a number
+into the bool field (TypeError), two accepted calls (one resets `brightness` to its default value 1) -/
+example : ctor { g2 := some 0, brightness := some 0 } = .ok { g2 := some 0, brightness := some 0 } ∧
+    step { g2 := some 0 } (.num "g2" 2) = .error .value ∧ step {} (.num "g3" 0) = .error .key ∧
+    step {} (.num "g2_distinguishable" 1) = .error .type ∧
+    runOps { g2 := some 0, brightness := some 0 } [.num "g2" 2, .num "brightness" 1, .bool false] =
+      { g2 := some 0, brightness := some 1, g2Distinguishable := some false } := by decide
+
+/-- the validation is load-bearing: a state the API cannot produce (a value outside its range) would be written
+but refused by the reader (`ValueError`), so the invariant above is what makes the round trip total -/
+theorem noise_reader_refuses_invalid (n : Noise) (h : valid n = false) : decV (encNoise n) = .error .value := by
+  simp [decV, roundtrip_noise, ctor, h]
+
+example : valid { transmittance := some 2 } = false := by decide
+
+/-- the boundary values of the ranges are inside: 0, 1 and `math.pi` itself survive -/
+theorem noise_range_ends_accepted :
+    ctor { brightness := some 0, indistinguishability := some 1, g2 := some 0, transmittance := some 1,
+           phaseImprecision := some 1000000, phaseError := some piDbl } =
+      .ok { brightness := some 0, indistinguishability := some 1, g2 := some 0, transmittance := some 1,
+            phaseImprecision := some 1000000, phaseError := some piDbl } := by
+  norm_num [ctor, valid, okField, NoiseC.get, inRange, FKey.range, piDbl]
+
+/-- ... and the next double above `math.pi` is refused as a phase error (`ValueError`) -/
+theorem noise_range_end_sharp :
+    step {} (.num "phase_error" (piDbl + 1 / 2251799813685248)) = .error .value := by
+  have h : FKey.ofName "phase_error" = some .phaseError := by decide
+  simp only [step, h]
+  norm_num [inRange, FKey.range, piDbl]
+
+end NoiseC
 
 end PM.C15
